@@ -8,7 +8,8 @@ TRUSTED = [
     "Model/RRuleStr.lean is a hand model of rrule.__str__ and of _rrulestr._parse_rfc/_parse_rfc_rrule/_handle_* at the level of the keyword arguments handed to rrule()/rruleset; tied by the rrs.str / rrs.parse correspondence ops (the implementation's constructor calls are recorded in-process)",
     "date values go through parser.parse in the real code (C02); the model covers only the compact form YYYYMMDDTHHMMSS[Z] that __str__ emits — other spellings are compared on the implementation only",
     "rrule(**kwargs) itself is C01's constructor; 'same kwargs => same occurrences' is determinism of C01's model",
-    "TZID / tzids / tzinfos / ignoretz resolution is option plumbing: tied by the oracle on the implementation (str_variants_partial)",
+    "TZID / tzids / tzinfos / ignoretz resolution is option plumbing: tied by the oracle on the implementation only (no theorem)",
+    "the unfold loop (ICal.unfold, shared with C17) and RDATE/EXDATE/DTSTART parameters are in the model and the correspondence but no theorem is stated about them; multi_line_builds_set is for parameter-less lines joined by newlines without unfold",
 ]
 ASSUMPTIONS = [
     "texts in the correspondence are ASCII (str.upper/split/splitlines/int are modelled for ASCII)",
@@ -46,7 +47,8 @@ def gen_kwargs(rng, small_years=True):
     freq = rng.randint(0, 6)
     y = rng.choice([1, 99, 999, 1000, 1997, 2000, 2024, 9990] if small_years else [1997, 2000, 2024])
     ds = datetime.datetime(y, rng.randint(1, 12), rng.randint(1, 28), rng.randint(0, 23), rng.randint(0, 59), rng.randint(0, 59))
-    kw = dict(interval=rng.choice([1, 1, 2, 3, 10]))
+    # interval 0 and negative intervals are accepted by the constructor and printed by __str__ (INTERVAL is omitted only for 1)
+    kw = dict(interval=rng.choice([1, 1, 1, 2, 2, 3, 3, 10, 10, 0, -2]))
     if rng.random() < .5:
         kw["wkst"] = rng.choice([0, 1, 6, R.MO, R.SU, R.TU])
     some = lambda pool, k=3: rng.sample(pool, rng.randint(1, k))
@@ -234,7 +236,7 @@ MALFORMED = ["FREQ=DAILY;FOO=1", "FREQ=DAILY;INTERVAL=x", "FREQ=NEVER", "FREQ=DA
 def correspondence(ctx):
     basecorr.run(ctx)
     rng = ctx.subrng("corr")
-    n = ctx.budget(500, 15000)
+    n = ctx.budget(500, 10000)
     rules, texts = [], []
     reqs, exp = [], []
     for _ in range(n):
@@ -244,16 +246,18 @@ def correspondence(ctx):
         except (ValueError, Timeout):
             ctx.count("ctor_rejected"); continue
         s = str(r)
-        rules.append((r, s))
+        rules.append((r, s, (freq, ds, kw)))
         reqs.append(str_request(r)); exp.append("ok " + hexs(s))
     got = ctx.driver(reqs)
-    for q, e, g in zip(reqs, exp, got):
+    ctx.c13_str_mismatch_rules = []
+    for q, e, g, rl in zip(reqs, exp, got, rules):
         if e != g:
+            ctx.c13_str_mismatch_rules.append({"rule": rl[2]})
             ctx.mismatch("rrs.str", q, bytes.fromhex(e[3:]).decode() if e[3:] != "." else "", bytes.fromhex(g[3:]).decode() if g.startswith("ok ") and g[3:] != "." else g)
     ctx.traces += len(reqs)
     # parse side: str() outputs, spellings, folded, sets, malformed, mutated
     cases = []
-    for r, s in rules:
+    for r, s, _ in rules:
         cases.append((s, {}))
         v = spell(rng, s, 2)
         cases.append((v, {}))
@@ -304,17 +308,91 @@ def correspondence(ctx):
 def same_occurrences(a, b, n=12):
     return head(iter(a), n) == head(iter(b), n)
 
+def oracle_sets(ctx):
+    from dateutil import rrule as R
+    rng = ctx.subrng("oracle-sets")
+    # (4) multi-line inputs build the corresponding set; forceset; compatible
+    for i in range(ctx.budget(120, 3000)):
+        if ctx.escalated and len(ctx.violations) >= 5:
+            break
+        ds = datetime.datetime(rng.choice([1997, 2000, 2024]), rng.randint(1, 12), rng.randint(1, 28), 9, 0, 0)
+        stamp = ds.strftime("%Y%m%dT%H%M%S")
+        r1 = "FREQ=DAILY;COUNT=%d" % rng.randint(1, 6)
+        if rng.random() < 0.5:
+            r1 += ";BYHOUR=10"      # the start (09:00) is then not an occurrence of the rule: `compatible` must add it
+        r2 = "FREQ=WEEKLY;COUNT=%d;BYDAY=%s" % (rng.randint(1, 4), rng.choice(WDN))
+        rd = [ds + datetime.timedelta(days=rng.randint(0, 20), hours=rng.choice([0, 0, 3])) for _ in range(rng.randint(0, 3))]
+        exd = [ds + datetime.timedelta(days=rng.randint(0, 6)) for _ in range(rng.randint(0, 2))]
+        use_ex = rng.random() < 0.5
+        use_r2 = rng.random() < 0.5
+        lines = ["DTSTART:" + stamp, "RRULE:" + r1]
+        if use_r2: lines.append("RRULE:" + r2)
+        if rd: lines.append("RDATE:" + ",".join(d.strftime("%Y%m%dT%H%M%S") for d in rd))
+        if use_ex: lines.append("EXRULE:FREQ=DAILY;INTERVAL=2;COUNT=2")
+        if exd: lines.append("EXDATE:" + ",".join(d.strftime("%Y%m%dT%H%M%S") for d in exd))
+        body = lines[1:]; rng.shuffle(body)
+        txt = "\n".join([lines[0]] + body)
+        opts = rng.choice([{}, {"forceset": True}, {"compatible": True}, {"unfold": True}])
+        if "unfold" in opts: txt = fold(rng, txt)
+        ref = R.rruleset()
+        ref.rrule(R.rrulestr(r1, dtstart=ds))
+        if use_r2: ref.rrule(R.rrulestr(r2, dtstart=ds))
+        for d in rd: ref.rdate(d)
+        if use_ex: ref.exrule(R.rrulestr("FREQ=DAILY;INTERVAL=2;COUNT=2", dtstart=ds))
+        for d in exd: ref.exdate(d)
+        if opts.get("compatible"): ref.rdate(ds)
+        ctx.case((txt, tuple(sorted(opts)))); ctx.count("set_cases")
+        try:
+            got = R.rrulestr(txt, **opts)
+            is_set = isinstance(got, R.rruleset)
+            want_set = bool(use_r2 or rd or use_ex or exd or opts.get("forceset") or opts.get("compatible"))
+            if is_set != want_set or list(got) != list(ref):
+                ctx.violation("multi-line text does not build the corresponding set", {"kind": "set", "text": txt, "opts": sorted(opts)},
+                              {"got": [d.isoformat() for d in list(got)[:6]], "want": [d.isoformat() for d in list(ref)[:6]], "is_set": is_set})
+        except Exception as ex:
+            ctx.violation("multi-line text rejected: %s" % exc_kind(ex), {"kind": "set", "text": txt, "opts": sorted(opts)}, repr(ex))
+
+def oracle_malformed(ctx):
+    from dateutil import rrule as R
+    # (5) unknown or malformed parts raise ValueError
+    for m in MALFORMED:
+        for opts in ({}, {"forceset": True}):
+            ctx.case((m, tuple(sorted(opts)), "malformed"), nontrivial=False); ctx.count("malformed")
+            try:
+                with warnings.catch_warnings():
+                    warnings.simplefilter("ignore")
+                    r = R.rrulestr(m, **opts)
+                out = "accepted"
+            except ValueError:
+                out = "ValueError"
+            except Exception as ex:
+                out = exc_kind(ex)
+            # a bare DTSTART with forceset is a (possibly empty) set, not malformed; an empty rule list is rejected
+            if m.startswith("DTSTART:") and "," not in m and out == "accepted" and opts:
+                continue
+            if out != "ValueError":
+                ctx.violation("rrulestr(%r, %s): %s instead of ValueError" % (m, opts, out), {"kind": "malformed", "text": m, "opts": sorted(opts), "outcome": out}, None)
+
+
 def oracle(ctx):
     from dateutil import rrule as R, tz
+    # the cheap sections first, so that the failing-input search after a correspondence mismatch reaches them early
+    oracle_sets(ctx)
+    oracle_malformed(ctx)
     rng = ctx.subrng("oracle")
-    n = ctx.budget(500, 25000)
+    n = ctx.budget(500, 10000)
     shown = 0
+    # rules on which the model and str() disagreed come first (failing-input search after a correspondence mismatch)
+    seeded = [m["rule"] for m in getattr(ctx, "c13_str_mismatch_rules", [])][:200]
     for i in range(n):
-        freq, ds, kw = gen_kwargs(rng)
+        if ctx.escalated and len(ctx.violations) >= 5:
+            ctx.count("search_stopped_after_failing_inputs_found"); break
+        freq, ds, kw = seeded.pop() if seeded else gen_kwargs(rng)
         try:
             r = build(freq, ds, kw)
             base = head(iter(r))
-        except (ValueError, Timeout):
+        except (ValueError, Timeout, ZeroDivisionError, OverflowError):
+            # interval <= 0 is accepted by the constructor but may fail or loop when iterated (C01's domain): nothing to compare
             ctx.count("skipped_ctor_or_slow"); continue
         s = str(r)
         key = (s,)
@@ -347,6 +425,9 @@ def oracle(ctx):
             elif mode == 2:
                 # start passed as dtstart= instead of inline
                 v = "\n".join(l for l in v.split("\n") if not l.upper().startswith("DTSTART")); opts["dtstart"] = ds
+            elif mode == 3 and "\n" in v:
+                # lines separated by arbitrary whitespace (s.split()), blank lines, surrounding blanks
+                v = rng.choice(["", " ", "\n"]) + v.replace("\n", rng.choice([" ", "\n\n", " \n", "\t", "\r\n"])) + rng.choice(["", " ", "\n"])
             ctx.case((v, tuple(sorted(opts))), nontrivial=True); ctx.count("spelling_mode_%d" % mode)
             try:
                 with warnings.catch_warnings():
@@ -384,60 +465,6 @@ def oracle(ctx):
                         ctx.violation("ignoretz=True does not give the naive rule", {"kind": "tz-ignore", "text": txt}, None)
             except (ValueError, Timeout):
                 ctx.count("skipped_ctor_or_slow")
-    # (4) multi-line inputs build the corresponding set; forceset; compatible
-    for i in range(ctx.budget(120, 3000)):
-        ds = datetime.datetime(rng.choice([1997, 2000, 2024]), rng.randint(1, 12), rng.randint(1, 28), 9, 0, 0)
-        stamp = ds.strftime("%Y%m%dT%H%M%S")
-        r1 = "FREQ=DAILY;COUNT=%d" % rng.randint(1, 6)
-        r2 = "FREQ=WEEKLY;COUNT=%d;BYDAY=%s" % (rng.randint(1, 4), rng.choice(WDN))
-        rd = [ds + datetime.timedelta(days=rng.randint(0, 20), hours=rng.choice([0, 0, 3])) for _ in range(rng.randint(0, 3))]
-        exd = [ds + datetime.timedelta(days=rng.randint(0, 6)) for _ in range(rng.randint(0, 2))]
-        use_ex = rng.random() < 0.5
-        use_r2 = rng.random() < 0.5
-        lines = ["DTSTART:" + stamp, "RRULE:" + r1]
-        if use_r2: lines.append("RRULE:" + r2)
-        if rd: lines.append("RDATE:" + ",".join(d.strftime("%Y%m%dT%H%M%S") for d in rd))
-        if use_ex: lines.append("EXRULE:FREQ=DAILY;INTERVAL=2;COUNT=2")
-        if exd: lines.append("EXDATE:" + ",".join(d.strftime("%Y%m%dT%H%M%S") for d in exd))
-        body = lines[1:]; rng.shuffle(body)
-        txt = "\n".join([lines[0]] + body)
-        opts = rng.choice([{}, {"forceset": True}, {"compatible": True}, {"unfold": True}])
-        if "unfold" in opts: txt = fold(rng, txt)
-        ref = R.rruleset()
-        ref.rrule(R.rrulestr(r1, dtstart=ds))
-        if use_r2: ref.rrule(R.rrulestr(r2, dtstart=ds))
-        for d in rd: ref.rdate(d)
-        if use_ex: ref.exrule(R.rrulestr("FREQ=DAILY;INTERVAL=2;COUNT=2", dtstart=ds))
-        for d in exd: ref.exdate(d)
-        if opts.get("compatible"): ref.rdate(ds)
-        ctx.case((txt, tuple(sorted(opts)))); ctx.count("set_cases")
-        try:
-            got = R.rrulestr(txt, **opts)
-            is_set = isinstance(got, R.rruleset)
-            want_set = bool(use_r2 or rd or use_ex or exd or opts.get("forceset") or opts.get("compatible"))
-            if is_set != want_set or list(got) != list(ref):
-                ctx.violation("multi-line text does not build the corresponding set", {"kind": "set", "text": txt, "opts": sorted(opts)},
-                              {"got": [d.isoformat() for d in list(got)[:6]], "want": [d.isoformat() for d in list(ref)[:6]], "is_set": is_set})
-        except Exception as ex:
-            ctx.violation("multi-line text rejected: %s" % exc_kind(ex), {"kind": "set", "text": txt, "opts": sorted(opts)}, repr(ex))
-    # (5) unknown or malformed parts raise ValueError
-    for m in MALFORMED:
-        for opts in ({}, {"forceset": True}):
-            ctx.case((m, tuple(sorted(opts)), "malformed"), nontrivial=False); ctx.count("malformed")
-            try:
-                with warnings.catch_warnings():
-                    warnings.simplefilter("ignore")
-                    r = R.rrulestr(m, **opts)
-                out = "accepted"
-            except ValueError:
-                out = "ValueError"
-            except Exception as ex:
-                out = exc_kind(ex)
-            # a bare DTSTART with forceset is a (possibly empty) set, not malformed; an empty rule list is rejected
-            if m.startswith("DTSTART:") and "," not in m and out == "accepted" and opts:
-                continue
-            if out != "ValueError":
-                ctx.violation("rrulestr(%r, %s): %s instead of ValueError" % (m, opts, out), {"kind": "malformed", "text": m, "opts": sorted(opts), "outcome": out}, None)
 
 KNOWN = {}
 
